@@ -1,3 +1,9 @@
 package ref
+
 import "testing"
-func TestAnchor(t *testing.T){ if err:=Anchor(); err!=nil {t.Fatal(err)} }
+
+func TestAnchor(t *testing.T) {
+	if err := Anchor(); err != nil {
+		t.Fatal(err)
+	}
+}
